@@ -2,6 +2,8 @@
 package c07
 
 import (
+	"math/big"
+	"crypto/x509"
 	"bytes"
 	"encoding/hex"
 	"io"
@@ -350,10 +352,22 @@ func init() {
 	}
 }
 
+// certificates a caller may be asking about: serials that occur in no response, and (below) the one the response is for
+var ocspAsked = []*x509.Certificate{{SerialNumber: big.NewInt(0x3333)}, {SerialNumber: big.NewInt(0)}, {SerialNumber: new(big.Int).Lsh(big.NewInt(1), 159)}}
+
 func ocspResponse(data []byte) string {
 	resp, err := ocsp.ParseResponse(data, nil)
+	// the same bytes asked for a particular certificate: one no single response is about, and the one the first is about
+	for _, c := range ocspAsked {
+		ocsp.ParseResponseForCert(data, c, nil)
+	}
 	if err != nil {
 		return "err"
+	}
+	if resp.SerialNumber != nil {
+		if r2, err := ocsp.ParseResponseForCert(data, &x509.Certificate{SerialNumber: resp.SerialNumber}, nil); err == nil && r2 != nil {
+			_ = r2.Status
+		}
 	}
 	_ = resp.Status
 	return "ok"
